@@ -23,3 +23,15 @@ package logs
 //@   opt prop=C14
 //@   trusted
 //@   opt writebeforeread=quoted
+
+// GetJournalctlLogs keeps every journal line that mentions apparmor: when it returns
+// without error, its scanner has passed all the lines of its input (it does not stop early
+// on a long line). File and process I/O, JSON decoding and the string builder are abstracted
+// (arbitrary results, they only write objects reachable from their arguments).
+//@ func GetJournalctlLogs
+//@   opt prop=C14
+//@   opt abstract=os.Open,os/exec.Command,(*exec.Cmd).Run,(*bytes.Buffer).Len,(*bytes.Buffer).String,encoding/json.Unmarshal,(*strings.Builder).WriteString,(*strings.Builder).String,strings.NewReader,path/filepath.Clean
+//@   assigns nothing
+//@   loop 1 invariant scanbounds()
+//@   loop 2 invariant true
+//@   ensures imp(second(result) == nil, allscanned())
